@@ -174,12 +174,17 @@ macro_rules! impl_retracer {
                 }
             }
 
-            pub struct M<'s>(pub ProguardMapper<'s>);
+            /// (mapper, label of the constructor it was built with)
+            pub struct M<'s>(pub ProguardMapper<'s>, pub &'static str);
             pub struct C<'s>(pub ProguardCache<'s>);
 
             impl<'s> Retracer for M<'s> {
                 fn name(&self) -> &'static str {
-                    $mapper_name
+                    if self.1.is_empty() {
+                        $mapper_name
+                    } else {
+                        self.1
+                    }
                 }
                 fn class<'a>(&'a self, class: &'a str) -> Option<&'a str> {
                     self.0.remap_class(class)
